@@ -46,9 +46,14 @@ type Box struct {
 	// CampaignBy[t] lists the nodes that may campaign while their own term is t (i.e. for
 	// term t+1); a term without an entry is unrestricted.
 	CampaignBy   map[uint64][]int `json:"campaign_only_by_nodes_at_term,omitempty"`
-	ConfVariants []uint16         `json:"-"` // nil: every conf-change variant
+	CrashAt      []int            `json:"crash_only_at_nodes,omitempty"` // nil: every node may crash
+	ConfVariants []uint16         `json:"-"`                             // nil: every conf-change variant
 	ConfNames    []string         `json:"conf_change_variants,omitempty"`
 	Restrictions []string         `json:"stated_restrictions,omitempty"`
+	// CollectAll (Box B): a violation does not abandon the box at once; the current deviation
+	// layer is finished first (violating transitions are never expanded), so that every
+	// invariant that is violated inside the layer is reported with its shortest run
+	CollectAll bool `json:"finish_the_layer_after_a_violation,omitempty"`
 }
 
 func (b *Box) finish() *Box {
@@ -116,6 +121,9 @@ func (b *Box) candidates(c *cluster, dev int) []cand {
 					if who, ok := b.CampaignBy[c.nodes[i].status.Term]; ok && !hasNode(who, n) {
 						continue
 					}
+				}
+				if k == evCrash && b.CrashAt != nil && !hasNode(b.CrashAt, n) {
+					continue
 				}
 				if (k == evLag || k == evPLag) && b.LagAt != 0 && n != b.LagAt {
 					continue
